@@ -11,6 +11,8 @@ BoolBoth == {TRUE, FALSE}
 BoolT == {TRUE}
 TmplBoth == {"plain", "rich"}
 TmplPlain == {"plain"}
+TmplAll == {"plain", "rich", "empty"}
+TmplEdge == {"rich", "empty"}
 EnvAll == {"flip", "dn", "san", "ext", "avail", "grab", "fcreate", "vanish", "nest"}
 EnvSeq == {"flip", "dn", "san", "ext", "avail", "grab", "fcreate", "vanish"}
 EnvCore == {"flip", "dn", "avail", "nest"}
